@@ -195,6 +195,14 @@ def run(c):
                 c.inconc("harness error: " + o.err)
             if len(c.samples) < 10 and o.outcome != "ok" and (hash(k) % 97 == 0):
                 c.sample({"entry": name, "mutation": kind, "lane": lane, "input_prefix": doc[:60].decode("latin-1"), "outcome": o.summary()[:120]})
+    if not c.quick:
+        # coverage-guided amplifier: libFuzzer chooses further inputs for the same entry points; the monitors stay the same
+        from .. import fuzzlane
+        seeds = [(op, d) for name, (op, docs, mk) in sorted(eps.items()) if docs for d in docs[:6] if d is not None]
+        seeds += [("mp.parse", b + b"\n" + d) for b, d in MP_BODY]
+        st = fuzzlane.run(c, "C20", int(os.environ.get("VERIF_FUZZ_SECONDS", "600")), seeds, REPO, only_ops=set(op for op, _ in fuzzlane.OPS) - {"serve"})
+        c.extra["libfuzzer_lane"] = st
+        c.cls("libfuzzer", st.get("coverage_edges", 0) > 0)
     if not c.samples:
         k, (name, kind, cs, doc) = next(iter(meta.items()))
         c.sample({"entry": name, "mutation": kind, "input_prefix": doc[:60].decode("latin-1")})
